@@ -146,6 +146,41 @@ func TestC07(t *testing.T) {
 	}
 	q.flush(t, 1)
 
+	// (a0) the same structures written with YAML anchors and aliases (tag names, whole tags, arguments, whole services):
+	// the document means what its expansion means
+	if ev.Mine(0) {
+		model := cfg.Config{Services: []cfg.Service{
+			{Name: "a", Ctor: sp("fx/lib.NewObj"), Args: []cfg.Val{cfg.Str("!tagged plugin")}},
+			{Name: "b", Ctor: sp("fx/lib.NewObj"), Args: []cfg.Val{cfg.Str("@a")}, Tags: []cfg.Tag{{Name: "plugin", Prio: 5}}},
+			{Name: "c", Ctor: sp("fx/lib.NewObj"), Tags: []cfg.Tag{{Name: "deco"}}},
+			{Name: "d", Ctor: sp("fx/lib.NewObj"), Args: []cfg.Val{cfg.Str("@d")}}},
+			Decorators: []cfg.Decorator{{Tag: "deco", Fn: "fx/lib.Decorate", Args: []cfg.Val{cfg.Str("@c")}}}}
+		raws := []string{
+			"parameters: {tagName: &t plugin, prio: &p 5, decoTag: &d deco}\nservices:\n  a: {constructor: fx/lib.NewObj, arguments: [\"!tagged plugin\"]}\n  b: {constructor: fx/lib.NewObj, arguments: [\"@a\"], tags: [{name: *t, priority: *p}]}\n  c: {constructor: fx/lib.NewObj, tags: [*d]}\n  d: {constructor: fx/lib.NewObj, arguments: [\"@d\"]}\ndecorators:\n  - {tag: *d, decorator: fx/lib.Decorate, arguments: [\"@c\"]}\n",
+			"parameters: {argA: &ra \"@a\", argC: &rc \"@c\", tg: &tg \"!tagged plugin\"}\nservices:\n  a: {constructor: fx/lib.NewObj, arguments: [*tg]}\n  b: {constructor: fx/lib.NewObj, arguments: [*ra], tags: [&tagobj {name: plugin, priority: 5}]}\n  c: {constructor: fx/lib.NewObj, tags: [deco]}\n  d: {constructor: &ctor fx/lib.NewObj, arguments: [\"@d\"]}\ndecorators:\n  - {tag: deco, decorator: fx/lib.Decorate, arguments: [*rc]}\n",
+		}
+		model.Params = nil
+		for i, raw := range raws {
+			m := model.Clone()
+			// the anchors live in parameters that mean nothing else
+			if i == 0 {
+				m.Params = []cfg.Param{{Name: "tagName", Val: cfg.Str("plugin")}, {Name: "prio", Val: cfg.Int(5)}, {Name: "decoTag", Val: cfg.Str("deco")}}
+			} else {
+				m.Params = []cfg.Param{{Name: "argA", Val: cfg.Str("@a")}, {Name: "argC", Val: cfg.Str("@c")}, {Name: "tg", Val: cfg.Str("!tagged plugin")}}
+			}
+			a := ref.Analyse(m)
+			o := runInproc(Spec{Files: []File{{Name: "anchors.yaml", Content: raw}}})
+			col.Case(ev.HashStr("anchors", raw), true)
+			col.Label("anchors-and-aliases")
+			if key, what := compareVerdict(a, sut.Flags{}, o); key != "" {
+				o.cleanup()
+				violation(t, "anchors:"+key, what+" :: "+oneLine(raw), cfgCase{C: m, Labels: []string{"written-with-anchors-and-aliases"}})
+				return
+			}
+			o.cleanup()
+		}
+	}
+
 	idx := 0
 	// (a1) all 512 reference structures on 3 parameters
 	for m := 0; m < 512; m++ {
